@@ -112,8 +112,23 @@ struct Group {
     limit: Option<usize>,
     /// use the library defaults (no explicit limits object) — only meaningful for the 16 MiB limit
     defaults: bool,
+    /// proxy path only: the INBOUND limits the proxy's own accept call was given (they say nothing about the peer):
+    /// 0 the library defaults, 1 = 4 KiB, 2 = 64 KiB, 3 = none at all, 4 = 64 MiB
+    accept: u8,
     cases: Vec<CaseSpec>,
     seed: u64,
+}
+
+/// Inbound thresholds of the proxy's accept call (`Group::accept`).
+fn accept_limits(a: u8) -> WebSocketLimits {
+    let d = WebSocketLimits::default();
+    match a {
+        1 => d.with_max_incoming_frame_size(Some(4 << 10)).with_max_incoming_message_size(Some(4 << 10)),
+        2 => d.with_max_incoming_frame_size(Some(64 << 10)).with_max_incoming_message_size(Some(64 << 10)),
+        3 => d.with_max_incoming_frame_size(None).with_max_incoming_message_size(None),
+        4 => d.with_max_incoming_frame_size(Some(64 << 20)).with_max_incoming_message_size(Some(64 << 20)),
+        _ => d,
+    }
 }
 
 fn limit_name(l: Option<usize>) -> String {
@@ -236,7 +251,7 @@ fn plan(args: &Args) -> Vec<Group> {
                 }
             }
             rng.shuffle(&mut cases);
-            groups.push(Group { path, limit, defaults, cases, seed: rng.next_u64() });
+            groups.push(Group { path, limit, defaults, accept: 0, cases, seed: rng.next_u64() });
         }
     }
     // long-query sweep on the three response paths
@@ -271,7 +286,42 @@ fn plan(args: &Args) -> Vec<Group> {
                 cases.push(CaseSpec { size: 48 + q, variant: 0, boundary: false, q, unknown: true });
             }
             rng.shuffle(&mut cases);
-            groups.push(Group { path, limit: Some(l), defaults: false, cases, seed: rng.next_u64() });
+            groups.push(Group { path, limit: Some(l), defaults: false, accept: 0, cases, seed: rng.next_u64() });
+        }
+    }
+    // the proxy's own INBOUND thresholds differ from what the peer is assumed to take: a proxy that accepted its downstream
+    // socket with small / large / no inbound limits, then forwards through the limit-less `proxy_connection` (guard = the
+    // library's 16 MiB default) or through `proxy_connection_with_limits` with an explicit assumption. What the proxy itself
+    // is willing to RECEIVE must not move the guard either way.
+    if only.as_ref().map(|o| o.contains(&Path::Proxy)).unwrap_or(true) {
+        let mut rng = Rng::new(args.seed ^ 0xC17_ACC);
+        for accept in 1..=4u8 {
+            for (limit, defaults) in [(Some(MIB16), true), (Some(64usize << 10), false), (Some(1usize << 20), false)] {
+                let l = limit.unwrap();
+                let mut cases = vec![];
+                let mut sizes: Vec<usize> = vec![];
+                // around the proxy's own inbound thresholds and around the real limit
+                for b in [4usize << 10, 64 << 10] {
+                    sizes.extend([b - 1, b, b + 1, b + rng.range(2, 200) as usize]);
+                }
+                for _ in 0..args.budget(4, 24) {
+                    sizes.push(rng.range(160, 700) as usize);
+                    sizes.push(rng.range(3 << 10, 6 << 10) as usize);
+                    sizes.push(rng.range(60 << 10, 70 << 10) as usize);
+                    sizes.push(rng.range(70 << 10, 2 << 20) as usize);
+                }
+                if l < MIB16 {
+                    sizes.extend([l - 1, l, l + 1, l + 2, l + rng.range(3, 4096) as usize]);
+                } else if accept >= 3 || args.thorough() {
+                    // above the library default only a proxy that itself receives such messages could be fooled
+                    sizes.extend([l, l + 1, l + 4097]);
+                }
+                for size in sizes {
+                    cases.push(CaseSpec { size, variant: rng.below(Path::Proxy.variants() as u64) as u32, boundary: size + 2 >= l && size <= l + 2, q: 0, unknown: false });
+                }
+                rng.shuffle(&mut cases);
+                groups.push(Group { path: Path::Proxy, limit, defaults, accept, cases, seed: rng.next_u64() });
+            }
         }
     }
     groups
@@ -412,11 +462,12 @@ struct Ctx<'a> {
 }
 impl Ctx<'_> {
     fn replay(&self, c: &CaseSpec) -> Value {
-        json!({"path": self.g.path.name(), "limit": self.g.limit, "library_defaults": self.g.defaults, "size": c.size, "variant": c.variant, "query_len": c.q, "unknown_route": c.unknown, "group_seed": self.g.seed.to_string()})
+        json!({"path": self.g.path.name(), "limit": self.g.limit, "library_defaults": self.g.defaults, "proxy_accept_inbound": self.g.accept, "size": c.size, "variant": c.variant, "query_len": c.q, "unknown_route": c.unknown, "group_seed": self.g.seed.to_string()})
     }
     fn viol(&mut self, c: &CaseSpec, sig: String, detail: String) {
         let lq = if c.q > 0 { format!(" query {} bytes ({:+} vs limit){}", c.q, self.g.limit.map(|l| c.q as i64 - l as i64).unwrap_or(0), if c.unknown { ", unknown route" } else { "" }) } else { String::new() };
-        let d = format!("{detail} [path {} limit {} wire size {} ({:+} vs limit) variant {}{lq}]", self.g.path.name(), limit_name(self.g.limit), c.size, self.g.limit.map(|l| c.size as i64 - l as i64).unwrap_or(0), c.variant);
+        let acc = if self.g.accept != 0 { format!(", proxy accepted with inbound limits {}{}", ["default", "4KiB", "64KiB", "none", "64MiB"][self.g.accept.min(4) as usize], if self.g.defaults { " and forwards through the limit-less proxy_connection" } else { "" }) } else { String::new() };
+        let d = format!("{detail} [path {} limit {} wire size {} ({:+} vs limit) variant {}{lq}{acc}]", self.g.path.name(), limit_name(self.g.limit), c.size, self.g.limit.map(|l| c.size as i64 - l as i64).unwrap_or(0), c.variant);
         let r = self.replay(c);
         self.acc.viols.push((sig, d, r));
     }
@@ -622,13 +673,14 @@ async fn start_proxy(g: &Group) -> Result<Srv, String> {
     });
     let listener = tokio::net::TcpListener::bind("127.0.0.1:0").await.map_err(|e| e.to_string())?;
     let addr = listener.local_addr().map_err(|e| e.to_string())?;
-    let (limit, defaults) = (g.limit, g.defaults);
+    let (limit, defaults, accept) = (g.limit, g.defaults, g.accept);
     let t2 = tokio::spawn(async move {
         loop {
             let Ok((stream, _)) = listener.accept().await else { break };
             tokio::spawn(async move {
                 let Ok(upstream) = AsyncClient::connect(baddr).await else { return };
-                let Ok(ws) = WebSocketServer::accept(stream, "/repe").await else { return };
+                let ws = if accept == 0 { WebSocketServer::accept(stream, "/repe").await } else { WebSocketServer::accept_with_limits(stream, "/repe", accept_limits(accept)).await };
+                let Ok(ws) = ws else { return };
                 let _ = if defaults { proxy_connection(ws, upstream).await } else { proxy_connection_with_limits(ws, upstream, limits_for(limit)).await };
             });
         }
@@ -996,6 +1048,9 @@ async fn run_server_group(g: &Group, hb: &Heartbeat) -> Acc {
         tokc = tokc.wrapping_mul(6364136223846793005).wrapping_add(1442695040888963407);
         let tok = tokc >> 12;
         cx.acc.evals += 1;
+        if g.accept != 0 {
+            cx.acc.count(if g.defaults { "proxy_cases_limitless_proxy_connection_nondefault_inbound_accept" } else { "proxy_cases_explicit_limits_nondefault_inbound_accept" }, 1);
+        }
         cx.acc.distinct.push((g.path, g.limit, c.size, c.variant, c.q, c.unknown));
         let before = cx.acc.viols.len();
         let alive = server_case(rc.as_mut().unwrap(), &srv, &mut cx, c, tok).await;
@@ -1258,6 +1313,7 @@ pub fn run(args: &Args) -> Report {
                     path: *PATHS.iter().find(|x| Some(x.name()) == v["path"].as_str())?,
                     limit: v["limit"].as_u64().map(|x| x as usize),
                     defaults: v["library_defaults"].as_bool().unwrap_or(false),
+                    accept: v["proxy_accept_inbound"].as_u64().unwrap_or(0) as u8,
                     cases: vec![CaseSpec {
                         size: v["size"].as_u64()? as usize,
                         variant: v["variant"].as_u64()? as u32,
